@@ -415,8 +415,38 @@ package recordio
 //@   modifies nothing
 //@ func NewFileReader
 //@   assumed
+//@   // (assumed: the ghost state of the new reader and the frame - the options are function values; verified: the clauses below)
+//@   props C04 C19 C12
 //@   ensures r1 == nil ==> r0 != nil && !rdClosed(r0)
 //@   ensures r1 != nil ==> r0 == nil
+//@   fresh r0
+//@   modifies nothing
+//@   exit [C04:factory-error-reported] called(IOFactory.CreateNewReader, 0) && callres(IOFactory.CreateNewReader, 0, 2) != nil ==> r1 != nil
+//@   call 0 of IOFactory.CreateNewReader: assert [C04:reader-for-the-path-and-buffer-asked-for] arg0 == opts.path && arg1 == opts.bufferSizeBytes
+//@   exit [C04,C19:reader-owns-what-the-factory-opened] r1 == nil ==> asType(*FileReader, r0).file == callres(IOFactory.CreateNewReader, 0, 0) &&
+//@        asType(*FileReader, r0).reader == callres(IOFactory.CreateNewReader, 0, 1) && !asType(*FileReader, r0).open && !asType(*FileReader, r0).closed &&
+//@        asType(*FileReader, r0).currentOffset == 0
+
+// The writer constructor: exactly one of file and path, a handle that was passed in is closed before the path is opened anew
+// (its close error is reported), the writer gets the file and buffer the factory opened, with the compression and the
+// alignment mode that were asked for.
+//@ func NewFileWriter
+//@   assumed-frame
+//@   props C04 C07 C15 C19
+//@   ensures [writer-or-error] (r1 == nil ==> r0 != nil) && (r1 != nil ==> r0 == nil)
+//@   fresh r0
+//@   modifies nothing
+//@   exit [C04:factory-error-reported] called(ReaderWriterCloserFactory.CreateNewWriter, 0) && callres(ReaderWriterCloserFactory.CreateNewWriter, 0, 2) != nil ==> r1 != nil
+//@   exit [C19:close-error-of-the-passed-handle-reported] called(File.Close, 0) && callres(File.Close, 0, 0) != nil ==> r1 != nil && !called(ReaderWriterCloserFactory.CreateNewWriter, 0)
+//@   call 0 of ReaderWriterCloserFactory.CreateNewWriter: assert [C04:writer-for-the-path-and-buffer-asked-for] arg0 == opts.path && arg1 == opts.bufferSizeBytes
+//@   call 0 of newCompressedFileWriterWithFile: assert [C04,C07:writer-gets-what-the-factory-opened] arg0 == callres(ReaderWriterCloserFactory.CreateNewWriter, 0, 0) &&
+//@        arg1 == callres(ReaderWriterCloserFactory.CreateNewWriter, 0, 1) && arg2 == opts.compressionType && arg3 == opts.enableDirectIO
+
+//@ func newCompressedFileWriterWithFile
+//@   props C04 C07 C15
+//@   ensures [a-closed-unopened-writer-over-the-given-file] r1 == nil && r0 != nil && asType(*FileWriter, r0).file == file && asType(*FileWriter, r0).bufWriter == bufWriter &&
+//@           asType(*FileWriter, r0).compressionType == compType && asType(*FileWriter, r0).alignedBlockWrites == alignedBlockWrites &&
+//@           !asType(*FileWriter, r0).open && !asType(*FileWriter, r0).closed && asType(*FileWriter, r0).currentOffset == 0
 //@   fresh r0
 //@   modifies nothing
 
